@@ -323,12 +323,14 @@ def _serializer(ctx, res) -> None:
             return ("list", None)
         if isinstance(v, ast.Call) and call_name(v) in ("list", "tuple"):
             return (call_name(v), None)
-        if isinstance(v, ast.Name) and v.id == "result":
+        if isinstance(v, ast.Name) and v.id in dict_locals:
             return ("dict", None)
         if isinstance(v, ast.Name):
             return ("scalar", None)
         return None
 
+    dict_locals = {n.targets[0].id for fn in (enc, dec) for n in walk_local(fn.node)
+                   if isinstance(n, ast.Assign) and isinstance(n.targets[0], ast.Name) and isinstance(n.value, ast.Dict) and not n.value.keys}
     ecfg, dcfg = CFG(enc.node), CFG(dec.node)
     emit: Dict[Tuple[str, int], Tuple[str, Optional[str]]] = {}
     for n in ecfg.nodes:
@@ -373,7 +375,7 @@ def _serializer(ctx, res) -> None:
         out = []
         for n in cfg.nodes:
             if n.kind == "stmt" and isinstance(n.ast, ast.Assign) and isinstance(n.ast.targets[0], ast.Subscript) \
-                    and isinstance(n.ast.targets[0].value, ast.Name) and n.ast.targets[0].value.id == "result":
+                    and isinstance(n.ast.targets[0].value, ast.Name) and n.ast.targets[0].value.id in dict_locals:
                 keyexpr = n.ast.targets[0].slice
                 preds = []
                 for t, pol in cfg.guards(n.id):
@@ -462,7 +464,9 @@ def _refid_rule(ctx, res, enc) -> None:
     app_i = next(i for i, e in enumerate(events) if is_app(e))
     # the store result[K] = V and the id expression
     stores = [st for st in blk if isinstance(st, ast.Assign) and isinstance(st.targets[0], ast.Subscript)
-              and isinstance(st.targets[0].value, ast.Name) and st.targets[0].value.id == "result"]
+              and isinstance(st.targets[0].value, ast.Name) and st.targets[0].value.id in
+              {n.targets[0].id for n in walk_local(enc.node) if isinstance(n, ast.Assign) and isinstance(n.targets[0], ast.Name)
+               and isinstance(n.value, ast.Dict) and not n.value.keys}]
     if not stores:
         res.undecided("R12.8", "refid", enc.where, "store into the encoded dict not found next to the reference append")
         return
